@@ -41,6 +41,33 @@ def self_attr_list(node):
     return None
 
 
+def lists_by_evaluation(ctx, kex, f):
+    """the attributes whose values reach ``_hassh`` when the property is evaluated (sa.miniexec) on a message whose every name-list
+    attribute holds its own name: helper methods, name tables and getattr make no difference.  None when not evaluable"""
+    from ..miniexec import Evaluator, Native, Raised, Unsupported, class_call_hook
+    seen = []
+
+    def extra(node, ev):
+        if isinstance(node.func, ast.Attribute) and node.func.attr == '_hassh' and node.args:
+            seen.append(list(ev.ev(node.args[0])))
+            return 'digest'
+        return NotImplemented
+
+    class Message(Native):
+        _repo_class = kex
+    me = Message()
+    for fld in kex.attrs_fields():
+        setattr(me, fld.name, fld.name)
+    hook = class_call_hook(kex, extra, ctx.model)
+    try:
+        Evaluator({'self': me}, hook, hook.name_hook_for(f.module, None)).function(f.node)
+    except (Unsupported, Raised, AttributeError, TypeError, KeyError, IndexError, ValueError):
+        return None
+    if len(seen) != 1 or not all(isinstance(x, str) for x in seen[0]):
+        return None
+    return seen[0]
+
+
 def check(ctx, report):
     model = ctx.model
     with open(os.path.join(HERE, 'specs', 'fingerprints.json')) as f:
@@ -57,8 +84,10 @@ def check(ctx, report):
             report.error('C16.R1: SshKeyExchangeInit.%s vanished' % prop)
             continue
         report.touch(f)
-        calls = [n for n in ast.walk(f.node) if isinstance(n, ast.Call) and isinstance(n.func, ast.Attribute) and n.func.attr == '_hassh']
-        got = self_attr_list(calls[0].args[0]) if calls and calls[0].args else None
+        got = lists_by_evaluation(ctx, kex, f)
+        if got is None:
+            calls = [n for n in ast.walk(f.node) if isinstance(n, ast.Call) and isinstance(n.func, ast.Attribute) and n.func.attr == '_hassh']
+            got = self_attr_list(calls[0].args[0]) if calls and calls[0].args else None
         if got is None:
             report.add('C16.R1', f.construct + '@lists', 'cannot read the list of algorithm vectors handed to _hassh')
         elif got != want:
